@@ -1,5 +1,5 @@
 SPECIFICATION Spec
 CONSTANTS MaxM = 3  MaxN = 3  Vals <- MCVals  Deltas = {1, 2}  Emit = FALSE  TwoBases = FALSE  SetColRangeAgainst = "cols"
 VIEW View
-INVARIANTS TypeOK Discipline PerturbedOnce Result QuotientLaw OwnColumnOnly NoPanic
+INVARIANTS TypeOK Discipline PerturbedOnce Result QuotientLaw OwnColumnOnly QuadLemma NoPanic
 CHECK_DEADLOCK FALSE
